@@ -67,10 +67,15 @@ func newSelector(strat string, weighted bool) (selector.Selector, error) {
 	return nil, fmt.Errorf("unknown strategy %q", strat)
 }
 
-func mkEp(h, w int) endpoint.Endpoint {
+// mkEp: t is the weight type (1 = endpoint.EStaticWeight, 0 = endpoint.ELoop: the endpoint carries no static weight).
+func mkEp(h, w, t int) endpoint.Endpoint {
+	wt := endpoint.ELoop
+	if t == 1 {
+		wt = endpoint.EStaticWeight
+	}
 	return endpoint.Endpoint{
 		Host: fmt.Sprintf("10.0.0.%d", h), Port: int32(10000 + h), Timeout: 3000, Istcp: endpoint.TCP,
-		Proto: "tcp", Weight: int32(w), WeightType: int32(endpoint.EStaticWeight),
+		Proto: "tcp", Weight: int32(w), WeightType: int32(wt),
 		Key: fmt.Sprintf("10.0.0.%d:%d", h, 10000+h),
 	}
 }
